@@ -276,9 +276,35 @@ class _ChangeComputer:
             if node is None:
                 raise similarfinder.BadNameInCheckError("Unknown name <%s>" % name)
             force = self._is_expression() and match.ast == node
-            mapping[name] = self._get_node_text(node, force)
+            mapping[name] = self._keep_parens(node, self._get_node_text(node, force))
         unindented = self.goal.substitute(mapping)
         return self._auto_indent(match.get_region()[0], unindented)
+
+    _COMPOUND = (
+        ast.BinOp,
+        ast.BoolOp,
+        ast.Compare,
+        ast.IfExp,
+        ast.Lambda,
+        ast.UnaryOp,
+        ast.NamedExpr,
+    )
+
+    def _keep_parens(self, node, text):
+        """Keep the parentheses a compound sub-expression was written in
+
+        The region of ``a + b`` in ``(a + b) * c`` does not contain the
+        parentheses; without them the goal ``${y} * ${x}`` would become
+        ``c * a + b``.
+        """
+        if not isinstance(node, self._COMPOUND):
+            return text
+        start, end = patchedast.node_region(node)
+        before = self.source[:start].rstrip()
+        after = self.source[end:].lstrip()
+        if before.endswith("(") and after.startswith(")"):
+            return "(" + text + ")"
+        return text
 
     def _get_node_text(self, node, force=False):
         if not force and node in self.matched_asts:
